@@ -551,6 +551,31 @@ def sign_multiplier_stub(data, dim):
     c.stub_log.append({"stub": "get_deterministic_sign_multiplier", "shape": list(vals.shape)})
     return ref.copy(data=sg)
 
+
+# ---------------------------------------------------------------------------------------
+# scipy.signal.hilbert: analytic signal, contract Re(H) == input
+
+
+def hilbert_stub(y, N=None, axis=-1):
+    from scipy.signal import hilbert as real_hilbert
+
+    if not isinstance(y, SymArray):
+        return real_hilbert(y, N=N, axis=axis)
+    c = cur()
+    y0 = witness_or_none(y)
+    h0 = _safe(real_hilbert, y0, N=N, axis=axis) if y0 is not None else None
+    if h0 is None:
+        c.on_witness = False
+    idn = len(c.caches.setdefault("hilbert", {}))
+    c.caches["hilbert"][idn] = True
+    yo = obj(y)
+    out = np.empty(yo.shape, dtype=object)
+    for idx in np.ndindex(*yo.shape):
+        im = c.new_var(f"hil{idn}" + "".join(f"_{i}" for i in idx), "stub", None if h0 is None else float(np.imag(h0[idx])), "imaginary part of the analytic signal")
+        out[idx] = Sym(Sym.of(yo[idx]).p + Poly.I() * im)
+    c.stub_log.append({"stub": "scipy.signal.hilbert", "shape": list(yo.shape)})
+    return SymArray(out, C128)
+
 # ---------------------------------------------------------------------------------------
 # installation: module-attribute patches for names that xeofs modules imported directly
 
@@ -615,6 +640,12 @@ def installed(promax=True):
             patch(importlib.import_module(modname), "get_deterministic_sign_multiplier", sign_multiplier_stub)
         except Exception:
             pass
+    try:
+        import xeofs.utils.hilbert_transform as ht
+
+        patch(ht, "hilbert", hilbert_stub)
+    except Exception:
+        pass
     if promax:
         global PROMAX_REAL
         import xeofs.linalg.rotation as rotmod
